@@ -30,7 +30,8 @@ import vcommon as V  # noqa
 INTERNAL = "src/xercesc/internal"
 
 CLASSES = [
-    # (class, header, reset entry points [(class, function, "prefix-until" or None)], helper classes searched for callee bodies)
+    # (class, header, reset entry points [(class, function, "prefix-until" or None[, parameter-list marker of the overload])],
+    #  helper classes searched for callee bodies)
     ("XMLScanner", "XMLScanner.hpp", None, None),
     ("IGXMLScanner", "IGXMLScanner.hpp", [("IGXMLScanner", "scanDocument", "scanReset"), ("IGXMLScanner", "scanReset", None)],
      ["IGXMLScanner", "XMLScanner"]),
@@ -45,12 +46,32 @@ CLASSES = [
     ("ValidationContextImpl", "ValidationContextImpl.hpp",
      [("ValidationContextImpl", "clearIdRefList", None), ("ValidationContextImpl", "setEntityDeclPool", None)],
      ["ValidationContextImpl"]),
+    # ---- parser objects on top of the scanner: what the start of a parse does to every member
+    #      (parse(const InputSource&) up to the scanDocument call = busy flag; reset()/resetDocument() = the
+    #      XMLDocumentHandler::resetDocument callback every scanReset makes)
+    ("AbstractDOMParser", "parsers/AbstractDOMParser.hpp",
+     [("AbstractDOMParser", "parse", "scanDocument", "InputSource"), ("AbstractDOMParser", "reset", None)], ["AbstractDOMParser"]),
+    ("DOMLSParserImpl", "parsers/DOMLSParserImpl.hpp",
+     [("DOMLSParserImpl", "parse", r"AbstractDOMParser\s*::\s*parse", "DOMLSInput")], ["DOMLSParserImpl"]),
+    ("SAXParser", "parsers/SAXParser.hpp",
+     [("SAXParser", "parse", "scanDocument", "InputSource"), ("SAXParser", "resetDocument", None)], ["SAXParser"]),
+    ("SAX2XMLReaderImpl", "parsers/SAX2XMLReaderImpl.hpp",
+     [("SAX2XMLReaderImpl", "parse", "scanDocument", "InputSource"), ("SAX2XMLReaderImpl", "resetDocument", None)],
+     ["SAX2XMLReaderImpl"]),
+    # ---- objects the scanners reset by a call (RCall rows above): what that call does inside
+    ("GrammarResolver", "validators/common/GrammarResolver.hpp",
+     [("GrammarResolver", "cacheGrammarFromParse", None), ("GrammarResolver", "useCachedGrammarInParse", None)], ["GrammarResolver"]),
+    ("IdentityConstraintHandler", "validators/schema/identity/IdentityConstraintHandler.hpp",
+     [("IdentityConstraintHandler", "reset", None)], ["IdentityConstraintHandler"]),
+    ("ValueStoreCache", "validators/schema/identity/ValueStoreCache.hpp",
+     [("ValueStoreCache", "startDocument", None)], ["ValueStoreCache"]),
+    ("SchemaValidator", "validators/schema/SchemaValidator.hpp", [("SchemaValidator", "reset", None)], ["SchemaValidator"]),
 ]
 SCANNERS = ["IGXMLScanner", "WFXMLScanner", "DGXMLScanner", "SGXMLScanner"]
 
 MUTATORS = ("reset", "removeAll", "removeAllElements", "removeAllElement", "cleanup", "clear", "flush", "createReader",
             "pushReader", "addOrFind", "put", "cacheGrammarFromParse", "useCachedGrammarInParse", "putGrammar",
-            "deallocate", "resetDocument", "resetEntities", "resetErrors", "clearIdRefList")
+            "deallocate", "resetDocument", "resetEntities", "resetErrors", "clearIdRefList", "flushAll", "startDocument")
 
 
 class ScanError(Exception):
@@ -390,6 +411,13 @@ def load_sources(repo):
     for f in sorted(os.listdir(d)):
         if f.endswith((".cpp", ".hpp")):
             texts[f] = strip_comments(open(os.path.join(d, f), encoding="utf-8", errors="replace").read())
+    # the classes outside internal/ : only the files named after a scanned class (key = path relative to src/xercesc)
+    wanted = {os.path.splitext(h)[0] for _c, h, _e, _h in CLASSES if "/" in h}
+    for h in sorted(wanted):
+        for ext in (".hpp", ".cpp"):
+            fp = os.path.join(repo, "src/xercesc", h + ext)
+            if os.path.exists(fp):
+                texts[h + ext] = strip_comments(open(fp, encoding="utf-8", errors="replace").read())
     return texts
 
 
@@ -409,8 +437,10 @@ def scan(repo=None):
         names = {n for n, _ in allm}
         eff = {}
         seen = set()
-        for (c, fn, until) in entries:
-            body = find_function(alltexts, c, fn, "InputSource" if fn in ("scanDocument", "scanReset") else None)
+        for ent in entries:
+            c, fn, until = ent[0], ent[1], ent[2]
+            marker = ent[3] if len(ent) > 3 else ("InputSource" if fn in ("scanDocument", "scanReset") else None)
+            body = find_function(alltexts, c, fn, marker)
             if body is None:
                 raise ScanError("%s::%s not found" % (c, fn))
             seen.add((c, fn))
